@@ -1,6 +1,7 @@
 import Driver.Util
 import SonicModel.Impl.Get
 import SonicModel.Impl.GetU
+import SonicModel.Impl.IterU
 namespace Driver
 open Sonic Sonic.Impl Sonic.Spec
 
@@ -104,9 +105,14 @@ def c12 (args : List String) : String :=
       let (la, lao) := Impl.drainArr buf 0 true
       let (lo, loo) := Impl.drainObj buf 0 true
       let libOk : Bool := (la, lao) == (sa, oka) && (lo, loo) == (so, oko)
+      -- the unchecked iterators (block skippers, skip_number_unsafe)
+      let (ua, uao) := Sonic.GetU.drainArrU buf 0 true
+      let (uo, uoo) := Sonic.GetU.drainObjU buf 0 true
+      let uas := ua.map fun (s, e) => s!"{s}:{e}"
+      let uos := uo.map fun (k, s, e) => s!"{hex k}:{s}:{e}"
       let sas := sa.map fun (s, e) => s!"{s}:{e}"
       let sos := so.map fun (k, s, e) => s!"{hex k}:{s}:{e}"
-      s!"m.arr={joinItems ma}|{ea} m.obj={joinItems mo}|{eo} spec.arr={joinItems sas}|{if oka then "END" else "ERR"} spec.obj={joinItems sos}|{if oko then "END" else "ERR"} utf8={ar u} inv={inv} lib={ar libOk}"
+      s!"m.arr={joinItems ma}|{ea} m.obj={joinItems mo}|{eo} spec.arr={joinItems sas}|{if oka then "END" else "ERR"} spec.obj={joinItems sos}|{if oko then "END" else "ERR"} utf8={ar u} inv={inv} lib={ar libOk} mu.arr={joinItems uas}|{if uao then "END" else "ERR"} mu.obj={joinItems uos}|{if uoo then "END" else "ERR"}"
     | none => "bad-hex"
   | [] => "bad-args"
 
